@@ -241,6 +241,41 @@ func c09Strategy(cc *run.Case, ns namedStrat, raceOnly bool) {
 			}
 		}
 	}
+	{
+		// the evaluation entry point (actions and outcome of one strategy), twice
+		// at the same time over the SAME snapshots, as a backtest of two
+		// strategies does; two sessions come without a close. The snapshots are
+		// shared and read-only.
+		bars := gen.Bars(cc.R, gen.Walk2, ns.Warm+30)
+		feed := reg.Snaps(bars)
+		feed[len(feed)/3].Close, feed[len(feed)-4].Close = 0, 0
+		before := make([]asset.Snapshot, len(feed))
+		for i, sp := range feed {
+			before[i] = *sp
+		}
+		var wg2 sync.WaitGroup
+		for k := 0; k < 2; k++ {
+			wg2.Add(1)
+			go func() {
+				defer wg2.Done()
+				actions, outcomes := strategy.ComputeWithOutcome(ns.New(), helper.SliceToChan(feed))
+				done := make(chan struct{})
+				go func() { helper.Drain(outcomes); close(done) }()
+				helper.Drain(actions)
+				<-done
+			}()
+		}
+		wg2.Wait()
+		cc.Count("outcome_evaluations_over_shared_snapshots", 2)
+		if !raceOnly {
+			for i, sp := range feed {
+				if *sp != before[i] {
+					cc.Viol("", fmt.Sprintf("%s: after ComputeWithOutcome the caller's snapshot %d reads %+v, it was %+v: the evaluation wrote to its input", ns.Name, i, *sp, before[i]), map[string]any{"strategy": ns.Name})
+					return
+				}
+			}
+		}
+	}
 	if ns.Row != nil {
 		cc.Count("cmp:"+ns.Row.Name, 1)
 	}
